@@ -77,6 +77,8 @@ func main() {
 		os.Exit(cmdCheck(os.Args[2:]))
 	case "dump":
 		os.Exit(cmdDump(os.Args[2:]))
+	case "coverage":
+		os.Exit(coverage(os.Args[2:]))
 	case "replay":
 		os.Exit(cmdReplay(os.Args[2:]))
 	default:
@@ -329,6 +331,42 @@ func cmdCheck(args []string) int {
 		}
 		for _, n := range ur.u.Notes() {
 			notes[n] = true
+		}
+	}
+	// every clause labelled with this property sits on a function this check verifies (a labelled clause on a
+	// function that no check lists under that property would be proved nowhere)
+	{
+		listed := map[string]bool{}
+		for _, f := range cfg.Funcs {
+			listed[f] = true
+		}
+		var keys []string
+		for k := range p.CS.Funcs {
+			keys = append(keys, k)
+		}
+		sort.Strings(keys)
+		for _, k := range keys {
+			fc := p.CS.Funcs[k]
+			if fc.Trusted || listed[k] {
+				continue
+			}
+			if _, isFunc := p.Funcs[k]; !isFunc {
+				continue // contract of an interface method, function-typed field or function type: assumed at calls
+			}
+			var cls []vc.Clause
+			cls = append(cls, fc.Ensures...)
+			for _, ca := range fc.CallAsserts {
+				cls = append(cls, ca.Clause)
+			}
+			for _, lc := range fc.Loops {
+				cls = append(cls, lc.Invariants...)
+			}
+			for _, c := range cls {
+				if c.Label != "" && belongs(c.Label, *prop) {
+					genFailures = append(genFailures, fmt.Sprintf("clause [%s] of %s is labelled with %s but %s is not among the functions this check verifies", c.Label, k, *prop, k))
+					break
+				}
+			}
 		}
 	}
 	// package-wide frame scans: stores to a protected field outside the functions under contract
@@ -878,4 +916,49 @@ func baselineKey(name string) string {
 		return name[:i+1] + kind
 	}
 	return ""
+}
+
+// coverage lists the /repo functions that no claimed check looks at: neither under contract in some props.json entry
+// nor inlined into a function that is. A change inside such a function is invisible to every check.
+func coverage(args []string) int {
+	fs := flag.NewFlagSet("coverage", flag.ExitOnError)
+	repo := fs.String("repo", repoDir, "repository")
+	fs.Parse(args)
+	p, err := loadProgram(*repo)
+	if err != nil {
+		fmt.Println("ENGINE-ERROR", err)
+		return 2
+	}
+	var props map[string]PropCfg
+	readJSON(filepath.Join(verifDir, "props.json"), &props)
+	seen := map[string][]string{}
+	done := map[string]bool{}
+	for id, pc := range props {
+		for _, f := range append(append([]string{}, pc.Funcs...), pc.Deps...) {
+			seen[f] = append(seen[f], id)
+			if done[f] {
+				continue
+			}
+			done[f] = true
+			u, err := p.VerifyFunc(f)
+			if err != nil || u == nil {
+				continue
+			}
+			for k := range u.Inlined {
+				seen[k] = append(seen[k], "inlined into "+f)
+			}
+		}
+	}
+	var missing []string
+	for _, k := range p.RepoFuncKeys() {
+		if len(seen[k]) == 0 {
+			missing = append(missing, k)
+		}
+	}
+	sort.Strings(missing)
+	fmt.Printf("%d /repo functions, %d looked at by some check, %d by none:\n", len(p.RepoFuncKeys()), len(p.RepoFuncKeys())-len(missing), len(missing))
+	for _, m := range missing {
+		fmt.Println("  ", m)
+	}
+	return 0
 }
